@@ -113,9 +113,50 @@ type Result struct {
 	Writes   []APICall  `json:"writes"`
 	Dials    []int64    `json:"dials"` // times (ms) corebgp's dialer reached the remote side or DialerControl
 	ServeErr string     `json:"serve_err"`
+	Inbound  []*Inbound `json:"inbound"` // every connection corebgp's listener accepted: when, and when corebgp closed it
 	Leaked   int        `json:"leaked"`
 	Error    string     `json:"error"`
 	StepLog  []string   `json:"steplog"`
+}
+
+// Inbound is one connection accepted by corebgp's listener; ClosedAt is set by an explicit Close() from corebgp
+// (a finalizer closing the descriptor of a dropped connection does not count)
+type Inbound struct {
+	Remote     string `json:"remote"`
+	AcceptedAt int64  `json:"accepted_at"`
+	ClosedAt   int64  `json:"closed_at"` // -1: corebgp never closed it
+}
+
+type trackedListener struct {
+	net.Listener
+	r *runner
+}
+
+type trackedConn struct {
+	net.Conn
+	r   *runner
+	rec *Inbound
+}
+
+func (l *trackedListener) Accept() (net.Conn, error) {
+	c, err := l.Listener.Accept()
+	if err != nil {
+		return nil, err
+	}
+	rec := &Inbound{Remote: c.RemoteAddr().String(), AcceptedAt: l.r.ms(), ClosedAt: -1}
+	l.r.mu.Lock()
+	l.r.res.Inbound = append(l.r.res.Inbound, rec)
+	l.r.mu.Unlock()
+	return &trackedConn{Conn: c, r: l.r, rec: rec}, nil
+}
+
+func (c *trackedConn) Close() error {
+	c.r.mu.Lock()
+	if c.rec.ClosedAt < 0 {
+		c.rec.ClosedAt = c.r.ms()
+	}
+	c.r.mu.Unlock()
+	return c.Conn.Close()
 }
 
 var cbSeq atomic.Int64
@@ -864,7 +905,7 @@ func runScenario(sc *Scenario) *Result {
 	}
 	r.serveCh = make(chan error, 1)
 	if !sc.NoServe {
-		go func() { r.serveCh <- srv.Serve([]net.Listener{r.lis}) }()
+		go func() { r.serveCh <- srv.Serve([]net.Listener{&trackedListener{Listener: r.lis, r: r}}) }()
 		for i := 0; i < 20000 && !bgp.VerifServing(srv); i++ {
 			time.Sleep(100 * time.Microsecond)
 		}
@@ -943,6 +984,13 @@ func runScenario(sc *Scenario) *Result {
 			res.Error += fmt.Sprintf(" delivered-slice-%d-modified", i)
 		}
 	}
+	// freeze the inbound-connection records (corebgp may still close one later: that is then too late)
+	snap := make([]*Inbound, 0, len(res.Inbound))
+	for _, in := range res.Inbound {
+		cp := *in
+		snap = append(snap, &cp)
+	}
+	res.Inbound = snap
 	r.mu.Unlock()
 	// hook events of this peer
 	peer := r.remote.String()
